@@ -132,6 +132,13 @@ func exec(line string) string {
 		return "bad-op"
 	}
 	src := o.Hex("src")
+	if o.Cmd == "kat" { // published vector: the model must reproduce `want`, and so must the code
+		h.Write(src)
+		return hx.Hex(o.Hex("want")) + "|" + hx.Hex(h.Sum(nil))
+	}
+	if o.Cmd != "h" {
+		return "bad-op"
+	}
 	var outs []string
 	for _, t := range o.List("ops") {
 		var k int
